@@ -12,7 +12,8 @@ def _range_defn_cmp(a,b):
       return 1
     return 0
 
-  return (a.start > b.start) - (a.start < b.start)
+  # (int(): comparisons of numpy.float64 starts give numpy booleans, which do not support '-')
+  return int(a.start > b.start) - int(a.start < b.start)
 
 _range_defn_key = functools.cmp_to_key(_range_defn_cmp)
 
